@@ -44,11 +44,58 @@ pub fn build(draws: &[u16], tier: Tier) -> Case {
 /// `force`: the generation mode (0 = phase programs) instead of a drawn one
 pub fn build_mode(draws: &[u16], tier: Tier, force: Option<usize>) -> Case {
     let mut s = Src::new(draws);
-    let mode = s.pick(8);
+    let mode = s.pick(9);
     let mode = force.unwrap_or(mode);
     let sp = SyncParams { max_threads: 2, max_ops: 6, ..Default::default() };
     let mut c;
     match mode {
+        // a frozen region of main racing with other threads: read-modify-writes only, so that every
+        // result is one of an interleaving and the region's effect has an exact reference
+        8 => {
+            let nchild = s.range(1, 2);
+            let nloc = s.range(1, 2) as u8;
+            let mut next = 1u8;
+            let mut rmw = |s: &mut Src| -> Op {
+                let a = s.pick(nloc as usize) as u8;
+                let v = next;
+                next = next.wrapping_mul(3).max(2) % 100;
+                if s.chance(3, 4) {
+                    Op::FetchAdd { a, v, o: MO::Sc }
+                } else {
+                    Op::Swap { a, v, o: MO::Sc }
+                }
+            };
+            let explicit = s.chance(1, 3);
+            let mut main: Vec<Op> = (1..=nchild).map(|t| Op::Spawn { t: t as u8 }).collect();
+            let k1 = if explicit { s.range(0, 1) } else { s.range(0, 2) };
+            for _ in 0..k1 {
+                main.push(rmw(&mut s));
+            }
+            if !explicit {
+                main.push(Op::StopExploring);
+            }
+            for _ in 0..s.range(1, 2) {
+                main.push(rmw(&mut s));
+            }
+            main.push(Op::Explore);
+            for _ in 0..s.range(0, 2) {
+                main.push(rmw(&mut s));
+            }
+            if s.chance(1, 2) {
+                for t in 1..=nchild {
+                    main.push(Op::Join { t: t as u8 });
+                }
+            }
+            let mut threads = vec![main];
+            for _ in 0..nchild {
+                let n = s.range(1, 2);
+                threads.push((0..n).map(|_| rmw(&mut s)).collect());
+            }
+            let prog = Program { threads, rx_owner: 0, arc_owner: vec![] };
+            c = Case::new("C19", "region", prog);
+            c.cfg.expect_explicit_explore = explicit;
+            c.x.mode = Some("region".into());
+        }
         // phase programs A ; R ; C
         0 | 1 | 2 => {
             let (ma, ca, ra) = phase(&mut s, 0, 1);
@@ -227,6 +274,44 @@ pub fn eval(case: &Case) -> Verdict {
     let mode = case.x.mode.clone().unwrap_or_default();
     v.label(&format!("mode_{}", mode));
     match mode.as_str() {
+        "region" => {
+            // reference: every interleaving in which main, once inside the region, keeps running
+            // until `explore()` (decisions inside the region are not explored), all decisions
+            // outside fully explored:  Rfrozen ⊆ L ⊆ R
+            let run = interp::collect(p, &case.cfg, false);
+            v.loom_iters = run.report.iters as u64;
+            if run.report.capped {
+                return Verdict::skip("capped");
+            }
+            let mut o = refsc::Opts::new();
+            o.max_states = 400_000;
+            let all = refsc::explore(p, o.clone());
+            o.freeze = if case.cfg.expect_explicit_explore { 2 } else { 1 };
+            let fr = refsc::explore(p, o);
+            if all.truncated || fr.truncated {
+                return Verdict::skip("reference budget");
+            }
+            v.ref_states = (all.states + fr.states) as u64;
+            let l: BTreeSet<Outcome> = run.outcomes.keys().cloned().collect();
+            v.detail = serde_json::json!({"L": set_str(&l), "R_frozen": set_str(&fr.outcomes), "R": set_str(&all.outcomes), "loom": {"iterations": run.report.iters, "panic": run.report.panic}});
+            v.nontrivial = fr.outcomes.len() >= 2 && fr.outcomes.len() < all.outcomes.len();
+            if case.cfg.expect_explicit_explore {
+                v.label("expect_explicit_explore");
+            }
+            if let Some(m) = &run.report.panic {
+                return v.fail("unexpected_panic", format!("the run panicked with `{}`", m));
+            }
+            if let Some(x) = l.iter().find(|x| !all.outcomes.contains(*x)) {
+                return v.fail("impossible_outcome", format!("result {} is not produced by any interleaving", fmt_outcome(x)));
+            }
+            if let Some(x) = l.iter().find(|x| !fr.outcomes.contains(*x)) {
+                return v.fail("region_explored", format!("result {} needs a scheduling decision inside the stop_exploring()/explore() region to go against the default", fmt_outcome(x)));
+            }
+            if let Some(x) = fr.outcomes.iter().find(|x| !l.contains(*x)) {
+                return v.fail("outside_not_fully_explored", format!("result {} only needs decisions outside the region, but is never explored ({} of {} missing)", fmt_outcome(x), fr.outcomes.iter().filter(|x| !l.contains(*x)).count(), fr.outcomes.len()));
+            }
+            v
+        }
         "phases" | "placement" => {
             let restricted = interp::collect(p, &case.cfg, true);
             let mut ucfg = case.cfg.clone();
